@@ -23,6 +23,8 @@ src/descriptor/tr/mod.rs) and of the key-level operations of
 import MsVerif.Model.Encode
 import MsVerif.Model.Keys
 import MsVerif.Spec.Outputs
+import MsVerif.Spec.Address
+import MsVerif.Model.TapTree
 
 namespace MsVerif.Desc
 open MsVerif MsVerif.Script MsVerif.Outputs MsVerif.Keys
@@ -51,8 +53,13 @@ def toP2wsh (H : Hashes) (script : Bytes) : Bytes := serialize (newWitnessProgra
 def pushSliceScript (data : Bytes) : Bytes := serialize [.push data]
 
 /-- `bitcoin::Network` -/
-inductive Network | bitcoin | testnet | signet | regtest
+inductive Network | bitcoin | testnet | testnet4 | signet | regtest
   deriving DecidableEq, Repr
+
+/-- the network as the address specification names it -/
+def Network.toSpec : Network → Address.Net
+  | .bitcoin => .bitcoin | .testnet => .testnet | .testnet4 => .testnet4
+  | .signet => .signet | .regtest => .regtest
 
 /-- the data part of a `bitcoin::Address` -/
 inductive Payload
@@ -66,6 +73,13 @@ def Payload.scriptPubkey : Payload → Bytes
   | .pubkeyHash h => serialize (newP2pkh h)
   | .scriptHash h => serialize (newP2sh h)
   | .witness v p => serialize (newWitnessProgram v p)
+
+/-- `impl Display for Address` (rust-bitcoin): Base58Check with the network kind's version byte
+for the two legacy payloads, Bech32 / Bech32m with the network's hrp for witness programs -/
+def Payload.toString (net : Network) : Payload → String
+  | .pubkeyHash h => Address.p2pkhString net.toSpec h
+  | .scriptHash h => Address.p2shString net.toSpec h
+  | .witness v p => Address.segwitString net.toSpec v p
 
 /-! ### the descriptor shapes -/
 
@@ -155,6 +169,22 @@ def trAddress (P : Params) (ik : Key) (leaves : List (Nat × Ms)) : Payload :=
 def trScriptPubkey (P : Params) (ik : Key) (leaves : List (Nat × Ms)) : Bytes :=
   serialize [.small 1, .push (P.trOutputKey ik (trLeafScripts P leaves))]
 
+/-- `Tr::spend_info()` through the model of `TrSpendInfo::from_tr` (Model/TapTree.lean, property
+C15) for a hash algebra `alg` (BIP341's tagged hashes: `Bip341.alg`) and the elliptic-curve tweak
+`tweak internalKey merkleRoot` (rust-bitcoin `tap_tweak`, the only oracle); `none` = the panic
+inside `nodes_from_tap_tree` on a depth list that is not a tree's -/
+def trSpendInfo (alg : Spec.HashAlg Bytes Bytes) (tweak : Bytes → Option Bytes → Bytes) (P : Params)
+    (ik : Key) (leaves : List (Nat × Ms)) : Option (Tap.SpendInfo Bytes Bytes Bytes Bytes) :=
+  Tap.SpendInfo.fromTr alg tweak (P.env.ser ik)
+    (if leaves.isEmpty then none else some (trLeafScripts P leaves))
+
+/-- the parameter `P.trOutputKey` IS `spend_info().output_key()` of that model, whenever the
+model yields a spend info -/
+def Params.TrKeyFromSpendInfo (P : Params) (alg : Spec.HashAlg Bytes Bytes)
+    (tweak : Bytes → Option Bytes → Bytes) : Prop :=
+  ∀ ik leaves si, trSpendInfo alg tweak P ik leaves = some si →
+    P.trOutputKey ik (trLeafScripts P leaves) = si.outputKey
+
 /-! ### `Descriptor` (mod.rs) -/
 
 /-- `Descriptor::script_pubkey` -/
@@ -174,6 +204,10 @@ def Desc.address (P : Params) (net : Network) : Desc → Option (Network × Payl
   | .wsh ms => some (net, wshAddress P ms)
   | .sh inner => some (net, shAddress P inner)
   | .tr ik leaves => some (net, trAddress P ik leaves)
+
+/-- `Descriptor::address(network)?.to_string()` -/
+def Desc.addressString (P : Params) (net : Network) (d : Desc) : Option String :=
+  (d.address P net).map fun a => a.2.toString a.1
 
 /-- `Descriptor::unsigned_script_sig` -/
 def Desc.unsignedScriptSig (P : Params) : Desc → Bytes
